@@ -56,7 +56,7 @@ func obligationText(o *Obligation, models bool) string {
 		sb.WriteString("(set-option :produce-models true)\n")
 	}
 	sb.WriteString("(set-logic ALL)\n")
-	sb.WriteString(o.vc.Text(o.BodyLen))
+	sb.WriteString(o.vc.Text(o.BodyLen, o.Goal))
 	if o.ExpectSat {
 		sb.WriteString("(assert " + o.Goal + ")\n")
 	} else {
